@@ -18,7 +18,7 @@ import (
 //
 // Captured variables are followed into the enclosing function's bindings.
 func indexSeqs(v ssa.Value) [][]string {
-	seqs := idxSeq(v, map[ssa.Value]bool{}, 0)
+	seqs := idxSeq(v, map[ssa.Value]bool{}, 0, nil)
 	// dedupe
 	seen := map[string]bool{}
 	var out [][]string
@@ -33,7 +33,12 @@ func indexSeqs(v ssa.Value) [][]string {
 	return out
 }
 
-func idxSeq(v ssa.Value, seen map[ssa.Value]bool, d int) [][]string {
+type idxEnv struct {
+	m  map[*ssa.Parameter]ssa.Value
+	up *idxEnv
+}
+
+func idxSeq(v ssa.Value, seen map[ssa.Value]bool, d int, env *idxEnv) [][]string {
 	if d > 40 {
 		return [][]string{{"?depth"}}
 	}
@@ -50,20 +55,20 @@ func idxSeq(v ssa.Value, seen map[ssa.Value]bool, d int) [][]string {
 		defer delete(seen, v)
 		var out [][]string
 		for _, e := range x.Edges {
-			out = append(out, idxSeq(e, seen, d+1)...)
+			out = append(out, idxSeq(e, seen, d+1, env)...)
 		}
 		return out
 	case *ssa.ChangeType:
-		return idxSeq(x.X, seen, d+1)
+		return idxSeq(x.X, seen, d+1, env)
 	case *ssa.Convert:
-		return idxSeq(x.X, seen, d+1)
+		return idxSeq(x.X, seen, d+1, env)
 	case *ssa.Call:
 		if c, ok := isAppend(x); ok {
-			a := idxSeq(c.Call.Args[0], seen, d+1)
+			a := idxSeq(c.Call.Args[0], seen, d+1, env)
 			if len(c.Call.Args) < 2 {
 				return a
 			}
-			b := idxSeq(c.Call.Args[1], seen, d+1)
+			b := idxSeq(c.Call.Args[1], seen, d+1, env)
 			var out [][]string
 			for _, s := range a {
 				for _, t := range b {
@@ -74,6 +79,28 @@ func idxSeq(v ssa.Value, seen map[ssa.Value]bool, d int) [][]string {
 				}
 			}
 			return out
+		}
+		// a same-package helper that builds the index: its results with the arguments substituted
+		if g := staticCallee(&x.Call); g != nil && len(g.Blocks) > 0 && g.Pkg == x.Parent().Pkg && !seen[x] && calleeName(&x.Call) != "path.ToStrings" {
+			seen[x] = true
+			defer delete(seen, x)
+			m := map[*ssa.Parameter]ssa.Value{}
+			for i, a := range x.Call.Args {
+				if i < len(g.Params) {
+					m[g.Params[i]] = a
+				}
+			}
+			var out [][]string
+			nret := 0
+			instrs(g, func(in ssa.Instruction) {
+				if ret, ok := in.(*ssa.Return); ok && len(ret.Results) == 1 {
+					nret++
+					out = append(out, idxSeq(ret.Results[0], seen, d+1, &idxEnv{m: m, up: env})...)
+				}
+			})
+			if nret > 0 {
+				return out
+			}
 		}
 		switch calleeName(&x.Call) {
 		case "path.ToStrings":
@@ -113,7 +140,7 @@ func idxSeq(v ssa.Value, seen map[ssa.Value]bool, d int) [][]string {
 			for _, e := range els {
 				var nxt [][]string
 				for _, s := range out {
-					for _, t := range idxSeq(e.v, seen, d+1) {
+					for _, t := range idxSeq(e.v, seen, d+1, env) {
 						nxt = append(nxt, append(append([]string{}, s...), t...))
 					}
 				}
@@ -121,8 +148,14 @@ func idxSeq(v ssa.Value, seen map[ssa.Value]bool, d int) [][]string {
 			}
 			return out
 		}
-		return idxSeq(x.X, seen, d+1)
+		return idxSeq(x.X, seen, d+1, env)
 	case *ssa.Parameter:
+		// parameter of a helper entered through a call: the argument in the caller's context
+		if env != nil {
+			if a, ok := env.m[x]; ok {
+				return idxSeq(a, seen, d+1, env.up)
+			}
+		}
 		return [][]string{{"param:" + x.Name()}}
 	case *ssa.UnOp:
 		// load of a local or captured cell: union of what is stored into it
@@ -152,7 +185,7 @@ func idxSeq(v ssa.Value, seen map[ssa.Value]bool, d int) [][]string {
 						}
 					}
 					if addr == ssa.Value(al) {
-						out = append(out, idxSeq(st.Val, seen, d+1)...)
+						out = append(out, idxSeq(st.Val, seen, d+1, env)...)
 					}
 				})
 			}
@@ -162,7 +195,7 @@ func idxSeq(v ssa.Value, seen map[ssa.Value]bool, d int) [][]string {
 		}
 	case *ssa.FreeVar:
 		if b := bindingOf(x); b != nil {
-			return idxSeq(b, seen, d+1)
+			return idxSeq(b, seen, d+1, env)
 		}
 	}
 	return [][]string{{"?" + Expr(v)}}
